@@ -417,10 +417,10 @@ impl Scheduler {
 				}
 				let (ng, to) = self.cv.wait_timeout(g, Duration::from_millis(200)).unwrap();
 				g = ng;
-				if to.timed_out() && g.last_progress.elapsed() > Duration::from_secs(20) && g.verdict.is_none() {
+				if to.timed_out() && g.last_progress.elapsed() > Duration::from_secs(180) && g.verdict.is_none() {
 					let choices: Vec<usize> = g.trace.iter().map(|s| s.chosen).collect();
 					let tail: Vec<String> = g.trace.iter().rev().take(8).map(|s| s.what.clone()).collect();
-					let v = Verdict::Stuck(format!("no scheduling point reached for 20 s; threads: {:?}; choices so far {:?}; last steps (newest first) {:?}", g.threads, choices, tail));
+					let v = Verdict::Stuck(format!("no scheduling point reached for 180 s; threads: {:?}; choices so far {:?}; last steps (newest first) {:?}", g.threads, choices, tail));
 					g.verdict = Some(v.clone());
 					break v;
 				}
